@@ -323,6 +323,11 @@ class Memory():
 
     def write(self, memory, addr, data, flush_queue=False, progress_cb=None):
         """Write the specified data to the given memory at the given address"""
+        if self.cf.link is None:
+            # Not connected: refused, a queued request would never complete and would block the writes of the next session
+            logger.warning('Write to memory id {} while not connected'.format(memory.id))
+            return False
+
         wreq = _WriteRequest(memory, addr, data, self.cf, progress_cb)
 
         # Workaround until we secure the uplink and change messages for
@@ -345,6 +350,11 @@ class Memory():
         """
         Read the specified amount of bytes from the given memory at the given address
         """
+        if self.cf.link is None:
+            # Not connected: refused, the request would never complete and would block the reads of the next session
+            logger.warning('Read of memory id {} while not connected'.format(memory.id))
+            return False
+
         if memory.id in self._read_requests:
             logger.warning('There is already a read operation ongoing for memory id {}'.format(memory.id))
             return False
